@@ -1,0 +1,8 @@
+//go:build !verif
+
+// Package verifhook provides pause points used by the verification harness in /verif.
+// Without the `verif` build tag Point is an empty function.
+package verifhook
+
+// Point is a named pause point (no-op in this build).
+func Point(string) {}
